@@ -358,3 +358,61 @@ Lemma empty_owner_witness :
          (eO toy_enc_owner_empty) (eOE toy_enc_owner_empty) (eU toy_enc_owner_empty)) = VOk /\
   fst (c_validate_owner_aes (toy_hash 31) (toy_hash 47) (toy_hash 63) toy_cbc toy_cbc saslprep [] toy_enc_owner_empty) = VNo.
 Proof. vm_compute. split; reflexivity. Qed.
+
+(* ---- the password bytes of revisions 5/6: prepare first, then truncate the PREPARED string to 127 bytes ---- *)
+
+Lemma prepared_password_eq prep pw : c_prepared_password prep pw = option_map (firstn 127) (prep pw).
+Proof. unfold c_prepared_password. destruct (prep pw) as [p|]; cbn; [rewrite trunc127_eq|]; reflexivity. Qed.
+
+(* the validation functions look at the password only through these bytes (the owner one also at its being empty) *)
+Lemma validate_user_aes_bytes sha256 sha384 sha512 cbc_enc cbc_dec prep pw1 pw2 e :
+  c_prepared_password prep pw1 = c_prepared_password prep pw2 ->
+  c_validate_user_aes sha256 sha384 sha512 cbc_enc cbc_dec prep pw1 e
+  = c_validate_user_aes sha256 sha384 sha512 cbc_enc cbc_dec prep pw2 e.
+Proof.
+  unfold c_prepared_password, c_validate_user_aes. intros H.
+  destruct (prep pw1) as [p1|], (prep pw2) as [p2|]; cbn in H; try congruence.
+  injection H as H. rewrite H. reflexivity.
+Qed.
+
+Lemma validate_owner_aes_bytes sha256 sha384 sha512 cbc_enc cbc_dec prep pw1 pw2 e :
+  pw1 <> [] -> pw2 <> [] ->
+  c_prepared_password prep pw1 = c_prepared_password prep pw2 ->
+  c_validate_owner_aes sha256 sha384 sha512 cbc_enc cbc_dec prep pw1 e
+  = c_validate_owner_aes sha256 sha384 sha512 cbc_enc cbc_dec prep pw2 e.
+Proof.
+  unfold c_prepared_password, c_validate_owner_aes. intros H1 H2 H.
+  assert (L1 : (len pw1 =? 0) = false) by (destruct pw1; [congruence|reflexivity]).
+  assert (L2 : (len pw2 =? 0) = false) by (destruct pw2; [congruence|reflexivity]).
+  rewrite L1, L2.
+  destruct (prep pw1) as [p1|], (prep pw2) as [p2|]; cbn in H; try congruence.
+  injection H as H. rewrite H. reflexivity.
+Qed.
+
+(* a toy normalisation that shortens: every pair 1,2 becomes 3 (as e + U+0301 becomes e-acute) *)
+Fixpoint toy_norm (l : bytes) : bytes :=
+  match l with
+  | 1 :: 2 :: r => 3 :: toy_norm r
+  | x :: r => x :: toy_norm r
+  | [] => []
+  end.
+
+Definition toy_long : bytes := 9 :: concat (repeat [1; 2] 64).     (* 129 bytes, 65 after normalisation; cut at 127: 64 *)
+
+(* preparing and then truncating is not truncating and then preparing *)
+Lemma order_witness :
+  let prep := fun x => Some (toy_norm x) in
+  option_map (firstn 127) (prep toy_long) <> prep (firstn 127 toy_long).
+Proof. vm_compute. intros H. discriminate H. Qed.
+
+(* ... and the two orders decide differently: the document of password toy_long accepts toy_long under the code model,
+   and rejects it under a model that cuts the raw input to 127 bytes before the preparation *)
+Definition toy_enc_long : enc :=
+  mkEnc [] (toy_hash 31 (toy_norm toy_long ++ salt_a) ++ salt_a ++ salt_b) [] (repeat 0 32) [] 256 0%Z 5 true [].
+
+Lemma order_decision_witness :
+  let prep := fun x => Some (toy_norm x) in
+  let prep_cut_first := fun x => prep (firstn 127 x) in
+  fst (c_validate_user_aes (toy_hash 31) (toy_hash 47) (toy_hash 63) toy_cbc toy_cbc prep toy_long toy_enc_long) = VOk /\
+  fst (c_validate_user_aes (toy_hash 31) (toy_hash 47) (toy_hash 63) toy_cbc toy_cbc prep_cut_first toy_long toy_enc_long) = VNo.
+Proof. vm_compute. split; reflexivity. Qed.
